@@ -2,7 +2,7 @@
 /repo/src (outside /repo and /verif, removed afterwards), re-verify the named
 functions and require a failing obligation."""
 import os, re, shutil, subprocess, sys, tempfile
-sys.path.insert(0, "/verif")
+sys.path.insert(0, os.path.dirname(os.path.dirname(os.path.abspath(__file__))))
 from mutants.catalog import MUTANTS
 
 def run(ids=None, jobs=2):
@@ -18,7 +18,7 @@ def run(ids=None, jobs=2):
                 return m["id"], "STALE", "pattern not found"
             open(p, "w").write(s.replace(m["old"], m["new"], 1))
             env = dict(os.environ, PVC_REPO=d)
-            out = subprocess.run(["python3-vt", "/verif/dev.py", "--fast"] + m["funcs"], capture_output=True, text=True, env=env, timeout=1800)
+            out = subprocess.run(["python3-vt", os.path.join(os.path.dirname(os.path.dirname(os.path.abspath(__file__))), "dev.py"), "--fast"] + m["funcs"], capture_output=True, text=True, env=env, timeout=1800)
             failed = re.findall(r"\[(?:unknown|failed)\] (\S+)", out.stdout)
             if "Traceback" in out.stderr:
                 return m["id"], "ERROR", out.stderr.strip().splitlines()[-1]
